@@ -20,3 +20,12 @@ run $B/D4_commute_add_var.diff C14 C12
 run $B/D5_commute_power.diff C08 C09
 run $B/B2_commute_scale.diff C04 C17 C18
 run $B/B9_factor_pooled.diff C04 C06 C18
+run $B/E1_rename_pairs.diff C12 C03
+run $B/E2_reorder_kwargs.diff C04 C18
+run $B/E3_ternary_coef.diff C06 C17 C18
+run $B/E4_half.diff C04 C07 C18
+run $B/F1_extract_method.diff C04 C07 C18
+run $B/F2_extract_function.diff C14 C12 C18
+run $B/B1_rename_local_mean.diff C04 C07
+run $B/B3_reorder_query_columns.diff C01 C02 C03
+run $B/B5_reorder_auto_check.diff C19 C13
